@@ -1197,6 +1197,13 @@ def M_poll_async_body(it, ctx, args, st):
             tenv[g] = it.canon_ty(crate, _sub(_tp(a), ctx.fr.tenv))
     yield from it.invoke(cands[0], list(args), st, tenv, ctx.fr.depth + 1)
 
+
+def M_char_to_string(it, ctx, args, st):
+    c = args[0] if not isinstance(args[0], Ptr) else st.deref_all(args[0])
+    if not it.feasible(st, z3.ULT(c, 128)) or it.feasible(st, z3.UGE(c, 128)):
+        raise Unsupported('char::to_string of a possibly non-ASCII char (UTF-8 encoding not modelled)')
+    yield st, BStr((z3.Extract(7, 0, c),), bv(1))
+
 P = r'(?:std|core|alloc)::'
 OPT = P + r'option::Option::<.*>::'
 RES = P + r'result::Result::<.*>::'
@@ -1277,6 +1284,7 @@ MODELS = [
     (r'<\{async fn body of .*\} as (?:futures_core|std::future|core::future)::Future>::poll', M_poll_async_body),
     (r'<' + P + r'boxed::Box<dyn .*> as ' + P + r'convert::From<.*>>::from', M_identity),
     (P + r'iter::empty::<.*>', lambda it, ctx, args, st: iter([(st, It('list', ()))])),
+    (r'<char as ' + P + r'string::ToString>::to_string', M_char_to_string),
     (P + r'mem::drop::<.*>', M_unit),
     (r'<(?:' + P + r'string::String|str) as ' + P + r'ops::Index<' + P + r'ops::Range\w*(<usize>)?>>::index', M_str_index_range),
     (P + r'fmt::rt::Argument::<.*>::new_\w+::<.*>|' + P + r'fmt::rt::Argument::new_\w+::<.*>', M_fmt_argument),
